@@ -62,11 +62,13 @@ bool FilePersister::initialise(const f8String& dbDir, const f8String& dbFname, b
 		{
 			if (_rotnum > 0)
 			{
+				// never keep (or index) more than Logger::max_rotation generations
+				const unsigned rotnum(std::min(_rotnum, static_cast<unsigned>(Logger::max_rotation)));
 				vector<string> dblst, idxlst;
 				dblst.push_back(_dbFname);
 				idxlst.push_back(_dbIname);
 
-				for (unsigned ii(0); ii < _rotnum && ii < Logger::max_rotation; ++ii)
+				for (unsigned ii(0); ii < rotnum; ++ii)
 				{
 					ostringstream ostr;
 					ostr << _dbFname << '.' << (ii + 1);
@@ -75,7 +77,7 @@ bool FilePersister::initialise(const f8String& dbDir, const f8String& dbFname, b
 					idxlst.push_back(ostr.str());
 				}
 
-				for (unsigned ii(_rotnum); ii; --ii)
+				for (unsigned ii(rotnum); ii; --ii)
 				{
 					rename (dblst[ii - 1].c_str(), dblst[ii].c_str());   // ignore errors
 					rename (idxlst[ii - 1].c_str(), idxlst[ii].c_str()); // ignore errors
